@@ -2,6 +2,7 @@
 import copy
 
 from harness import common, refio, sessions, tsgen
+from harness.common import bud
 from harness.sessions import SB
 
 PROP = "C12"
@@ -92,8 +93,8 @@ def run(ctx, out, budget):
                 "load_typesystem -> canonical dump must equal the original (descriptions trimmed); re-emission byte-identical; a "
                 "differently redeclared built-in must be rejected. Non-trivial = distinct (type system, permutation) with >= 3 user types.")
     rng = ctx.rng(0)
-    n = 80 if budget == "quick" else 6000
-    nperm = 4 if budget == "quick" else 8
+    n = bud(budget, 80, 6000)
+    nperm = bud(budget, 4, 8)
     gens = [gen_ts(rng, rng.randint(1, 8)) for _ in range(n)]
     stage_a = [list(sb.ops) + [{"op": "ts.to_xml", "ts": ts}, {"op": "ts.query", "ts": ts, "kind": "dump"}] for sb, ts, user in gens]
     ia = sessions.run_impl_sessions(stage_a)
